@@ -20,41 +20,94 @@ def field_calls(b, fields, rx):
     return out
 
 
+def up_origins(ctx, body, op, depth=0):
+    """(fields, parameters of the outermost function) on the provenance of an operand, following
+    closure captures up into the enclosing functions"""
+    fields = set(); params = set()
+    if op_is_const(op):
+        return fields, params
+    P = prov.operand_origins(body, op, deep=True)
+    fields |= set(P.fields)
+    if body.kind != "Closure":
+        params |= set(P.params())
+    if depth < 4:
+        for r in P.roots:
+            if r[0] == "upvar":
+                cap = shared.capture_operand(ctx, body, r)
+                if cap:
+                    f2, p2 = up_origins(ctx, cap[0], cap[1], depth + 1)
+                    fields |= f2; params |= p2
+    return fields, params
+
+
+def up_field_calls(ctx, bodies, fields, rx):
+    """(body, block) of calls matching rx whose receiver derives -- possibly through closure
+    captures -- from one of the given struct fields"""
+    out = []
+    for body in bodies:
+        for i, t in body.calls():
+            if re.search(rx, t["f"] or "") and t["a"] and not op_is_const(t["a"][0]):
+                if up_origins(ctx, body, t["a"][0])[0] & set(fields):
+                    out.append((body, i))
+    return out
+
+
 def rule_pair(ctx, R):
     spec = [("subscribe", "channels", "add"), ("unsubscribe", "channels", "del"), ("psubscribe", "patterns", "add"), ("punsubscribe", "patterns", "del")]
+    GM = r"HashMap::<std::vec::Vec<u8>, std::collections::HashSet<u64>>::"
     for fn_, kind, mode in spec:
-        b = ctx.prog.need(PS + fn_)
-        per = field_calls(b, {SI + kind}, r"HashSet::<std::vec::Vec<u8>>::%s(::<.*>)?$" % ("insert" if mode == "add" else "remove"))
-        glob_get = field_calls(b, {PM + kind}, r"HashMap::<std::vec::Vec<u8>, std::collections::HashSet<u64>>::(entry|get_mut|insert)(::<.*>)?$")
-        ids = [i for i, t in b.calls() if re.search(r"HashSet::<u64>::%s(::<.*>)?$" % ("insert" if mode == "add" else "remove"), t["f"] or "")]
-        R.inst(b.fn, "pair:" + kind, {"per_connection_%s" % mode: len(per), "global_map_access": len(glob_get), "global_id_%s" % mode: len(ids)})
-        if not per:
-            R.finding(b.fn, "pair:per-connection-missing", "%s does not update the connection's own %s set" % (fn_, kind), b.loc()); continue
+        b0 = ctx.prog.need(PS + fn_)
+        verb = "insert" if mode == "add" else "remove"
+        # the update may sit in a closure the function drives (`names.into_iter().map(|n| ..)`):
+        # the whole closure tree is searched and captures are followed up to the function
+        tree = shared.closure_tree(ctx, b0)
+        per_all = up_field_calls(ctx, tree, {SI + kind}, r"HashSet::<std::vec::Vec<u8>>::%s(::<.*>)?$" % verb)
+        glob_get = up_field_calls(ctx, tree, {PM + kind}, GM + r"(entry|get_mut|insert)(::<.*>)?$")
+        R.inst(b0.fn, "pair:" + kind, {"per_connection_%s" % mode: len(per_all), "global_map_access": len(glob_get), "bodies_searched": len(tree)})
+        if not per_all:
+            helpers = [c for c in ctx.cg.reach([b0.fn]) if c.startswith("pubsub::") and c != b0.fn and c in ctx.prog.bodies and ctx.prog.bodies[c] not in tree]
+            if any(field_calls(ctx.prog.bodies[h], {SI + kind}, r"HashSet::<std::vec::Vec<u8>>::%s(::<.*>)?$" % verb) for h in helpers):
+                R.broken.append("%s: the connection's own %s set is updated in a helper the rule does not follow" % (fn_, kind)); continue
+            R.finding(b0.fn, "pair:per-connection-missing", "%s does not update the connection's own %s set" % (fn_, kind), b0.loc()); continue
+        b = per_all[0][0]
+        per = [i for body, i in per_all if body is b]
+        ids = [i for i, t in b.calls() if re.search(r"HashSet::<u64>::%s(::<.*>)?$" % verb, t["f"] or "")]
         ok = any(any(j in cfg.fwd(b, [i]) or i in cfg.fwd(b, [j]) for j in ids) for i in per) and bool(glob_get)
         if ok:
             # the id stored in / removed from the global set is the connection_id parameter
-            ok = any(1 + 1 in prov.operand_origins(b, b.term(j)["a"][1], deep=True).params() for j in ids if len(b.term(j)["a"]) > 1)
+            ok = any(1 + 1 in up_origins(ctx, b, b.term(j)["a"][1])[1] for j in ids if len(b.term(j)["a"]) > 1)
         if not ok:
-            R.finding(b.fn, "pair:global-map-not-updated", "%s updates the connection's %s set without the matching %s of this connection in the global %s map" % (fn_, kind, "insert" if mode == "add" else "removal", kind), b.loc(per[0]))
+            R.finding(b0.fn, "pair:global-map-not-updated", "%s updates the connection's %s set without the matching %s of this connection in the global %s map" % (fn_, kind, "insert" if mode == "add" else "removal", kind), b.loc(per[0]))
         if mode == "del":
             # emptied subscriber set is removed from the global map; emptied SubscriberInfo removed
-            gdel = field_calls(b, {PM + kind}, r"HashMap::<std::vec::Vec<u8>, std::collections::HashSet<u64>>::remove(::<.*>)?$")
-            cdel = field_calls(b, {PM + "connections"}, r"HashMap::<u64, pubsub::SubscriberInfo>::remove(::<.*>)?$")
-            R.inst(b.fn, "pair:empty-cleanup", {"global_entry_removed_when_empty": bool(gdel), "subscriber_info_removed_when_empty": bool(cdel)})
+            gdel = up_field_calls(ctx, tree, {PM + kind}, GM + r"remove(::<.*>)?$")
+            cdel = up_field_calls(ctx, tree, {PM + "connections"}, r"HashMap::<u64, pubsub::SubscriberInfo>::remove(::<.*>)?$")
+            R.inst(b0.fn, "pair:empty-cleanup", {"global_entry_removed_when_empty": bool(gdel), "subscriber_info_removed_when_empty": bool(cdel)})
             if not gdel:
-                R.finding(b.fn, "pair:empty-set-left", "an emptied subscriber set is left in the global %s map" % kind, b.loc())
+                R.finding(b0.fn, "pair:empty-set-left", "an emptied subscriber set is left in the global %s map" % kind, b0.loc())
             if not cdel:
-                R.finding(b.fn, "pair:empty-info-left", "a connection without subscriptions keeps its SubscriberInfo (it still counts as subscribed)", b.loc())
+                R.finding(b0.fn, "pair:empty-info-left", "a connection without subscriptions keeps its SubscriberInfo (it still counts as subscribed)", b0.loc())
     ua = ctx.prog.need(PS + "unsubscribe_all")
     for kind in ("channels", "patterns"):
         it = field_calls(ua, {PM + kind}, r"HashMap::<std::vec::Vec<u8>, std::collections::HashSet<u64>>::(iter_mut|values_mut|retain)(::<.*>)?$")
         R.inst(ua.fn, "all:" + kind, {"iterates_global_map": bool(it)})
         if not it:
             R.finding(ua.fn, "all:%s:not-swept" % kind, "unsubscribe_all does not sweep the global %s map" % kind, ua.loc())
-    rm = [i for _, i, t in shared.deep_calls(ctx, ua) if re.search(r"HashSet::<u64>::remove", t["f"] or "")]
+    # each global map's sweep removes the connection id: in the closure handed to the sweeping call
+    # (retain) or, for iter_mut / values_mut, somewhere in the function (one loop may sweep both
+    # maps: `for index in [&mut *channels, &mut *patterns]`)
+    swept = 0
+    body_rm = any(re.search(r"HashSet::<u64>::remove", t["f"] or "") for _, t in ua.calls())
+    for kind in ("channels", "patterns"):
+        good = False
+        for i in field_calls(ua, {PM + kind}, r"HashMap::<std::vec::Vec<u8>, std::collections::HashSet<u64>>::(iter_mut|values_mut|retain)(::<.*>)?$"):
+            cl = [ctx.prog.bodies[c] for c in (ua.term(i).get("clos") or []) if c in ctx.prog.bodies]
+            if any(re.search(r"HashSet::<u64>::remove", t["f"] or "") for c in cl for _, _, t in shared.deep_calls(ctx, c)) or (not cl and body_rm):
+                good = True
+        swept += good
     cdel = field_calls(ua, {PM + "connections"}, r"HashMap::<u64, pubsub::SubscriberInfo>::remove(::<.*>)?$")
-    R.inst(ua.fn, "all:removal", {"id_removals": len(rm), "info_removed": bool(cdel)})
-    if len(rm) < 2 or not cdel:
+    R.inst(ua.fn, "all:removal", {"maps_whose_sweep_removes_the_id": swept, "info_removed": bool(cdel)})
+    if swept < 2 or not cdel:
         R.finding(ua.fn, "all:incomplete", "unsubscribe_all does not remove the connection from both maps and its SubscriberInfo", ua.loc())
 
 
@@ -62,14 +115,16 @@ def rule_count(ctx, R):
     """the acknowledged count is channels.len() + patterns.len() of the connection's entry, taken
     after the update"""
     for fn_, kind, mode in (("subscribe", "channels", "add"), ("unsubscribe", "channels", "del"), ("psubscribe", "patterns", "add"), ("punsubscribe", "patterns", "del")):
-        b = ctx.prog.need(PS + fn_)
-        aggs = []
-        for i, bb in enumerate(b.bbs):
-            for st in bb["s"]:
-                if st["k"] == "=" and st["r"]["k"] == "agg" and st["r"]["a"] == "pubsub::SubResult::SubResult":
-                    aggs.append((i, st))
+        b0 = ctx.prog.need(PS + fn_)
+        b = b0; aggs = []
+        for cand in shared.closure_tree(ctx, b0):
+            found = [(i, st) for i, bb in enumerate(cand.bbs) for st in bb["s"] if st["k"] == "=" and st["r"]["k"] == "agg" and st["r"]["a"] == "pubsub::SubResult::SubResult"]
+            if found:
+                b = cand; aggs = found; break
         if not aggs:
-            R.finding(b.fn, "count:no-result", "no SubResult is built", b.loc()); continue
+            if len(shared.closure_tree(ctx, b0)) > 1:
+                R.broken.append("%s: no SubResult construction found in the function or its closures" % fn_); continue
+            R.finding(b0.fn, "count:no-result", "no SubResult is built", b0.loc()); continue
         per = field_calls(b, {SI + kind}, r"HashSet::<std::vec::Vec<u8>>::%s(::<.*>)?$" % ("insert" if mode == "add" else "remove"))
         for i, st in aggs:
             k = st["r"]["fs"].index("num_subscriptions")
@@ -231,16 +286,20 @@ def rule_record(ctx, R):
         cdel = field_calls(b, {PM + "connections"}, r"HashMap::<u64, pubsub::SubscriberInfo>::remove(::<.*>)?$")
         if not cdel:
             continue
-        # emptiness tests of the two per-connection sets: block regions where the set is empty
+        # emptiness tests of the two per-connection sets: blocks reachable only after the set was
+        # found empty (path-sensitive, so `a.is_empty() && b.is_empty()` may also be a helper's
+        # result or a flag)
         empty_reg = {}
         for kind in ("channels", "patterns"):
-            reg = set()
-            for i in field_calls(b, {SI + kind}, r"HashSet::<std::vec::Vec<u8>>::is_empty$"):
-                t = b.term(i)
-                sw = shared._follow_to_switch(b, t["t"], t["d"]["l"])
-                if sw:
-                    reg |= cfg.edge_dom_set(b, sw[0], sw[1]["o"])
-            empty_reg[kind] = reg
+            tests = set(field_calls(b, {SI + kind}, r"HashSet::<std::vec::Vec<u8>>::is_empty$"))
+            class _S(boolpath.Spec):
+                def call(self, b_, bbi, t, tests=tests):
+                    return boolpath.A if bbi in tests else None
+            try:
+                res = boolpath.explore(b, _S(), cap=200000)
+            except boolpath.TooManyStates as e:
+                R.broken.append(str(e)); res = None
+            empty_reg[kind] = (set(range(len(b.bbs))) - set(res.reached)) if res is not None and tests else set()
         sweeps = all(field_calls(b, {PM + kind}, r"HashMap::<std::vec::Vec<u8>, std::collections::HashSet<u64>>::(iter_mut|values_mut|retain)(::<.*>)?$") for kind in ("channels", "patterns"))
         for k, i in enumerate(cdel):
             n += 1
@@ -367,7 +426,9 @@ def rule_entrydrop(ctx, R):
     they stop receiving and PUBLISH stops counting them."""
     n = 0
     for fn, b in sorted(ctx.prog.bodies.items()):
-        if not fn.startswith(PS) or "::tests::" in fn or b.kind == "Closure":
+        if not fn.startswith(PS) or "::tests::" in fn:
+            continue
+        if b.kind == "Closure" and not any(re.search(_SUBMAP + r"(retain|remove)(::<.*>)?$", t["f"] or "") for _, t in b.calls()):
             continue
         try:
             ex = boolpath.explore(b, _EmptySpec())
@@ -418,3 +479,78 @@ def rule_entrydrop(ctx, R):
 def rules_rdb_root_locals(b, o):
     import rules_rdb
     return rules_rdb.root_locals(b, o)
+
+
+# ---- R-PS-ACKSENT ---------------------------------------------------------------------------------
+def rule_acksent(ctx, R):
+    """every (P)(UN)SUBSCRIBE is acknowledged: a handler that returns NoResponse (it sends its
+    replies itself) has sent at least one frame.  The sends sit in a loop over the manager's
+    results; that loop is known to run when the handler refused a call without names up front (an
+    arity test on parts.len() with an error return), otherwise an emptiness test of the results
+    must lead to a send of its own (the `unsubscribe nil 0` reply of a client that has no
+    subscriptions).  A command without any reply leaves the client waiting for ever and shifts
+    the pairing of every later reply."""
+    import rules_cmd
+    n = 0
+    # the handlers are found by what they do: functions of the server that call the
+    # subscription manager's (p)(un)subscribe and build a NoResponse
+    MAN = {PS + "subscribe": "SUBSCRIBE", PS + "unsubscribe": "UNSUBSCRIBE", PS + "psubscribe": "PSUBSCRIBE", PS + "punsubscribe": "PUNSUBSCRIBE"}
+    for fn, b in sorted(ctx.prog.bodies.items()):
+        if not fn.startswith("network::") or b.kind == "Closure" or "::tests::" in fn:
+            continue
+        nms = sorted({MAN[callee(t)] for body in shared.closure_tree(ctx, b) for _, t in body.calls() if callee(t) in MAN})
+        for nm in nms[:1]:
+            nores = [i for i, bb in enumerate(b.bbs) for st in bb["s"] if st["k"] == "=" and st["r"]["k"] == "agg" and st["r"]["a"] == "protocol::resp::RespFrame::NoResponse"]
+            if not nores:
+                continue
+            n += 1
+            tree = shared.closure_tree(ctx, b)
+            certain = False; looped = False; guarded_empty_send = False
+            for body in tree:
+                lps = cfg.loops(body)
+                inloop = set().union(*lps.values()) if lps else set()
+                for i, t in body.calls():
+                    if callee(t) != "network::connection::Connection::send_frame" or body.bbs[i]["cleanup"]:
+                        continue
+                    if i in inloop:
+                        looped = True
+                    else:
+                        # outside loops: certain unless it sits under an emptiness test (then it
+                        # is the reply of the empty case)
+                        under_empty = False
+                        for j, tj in body.calls():
+                            if re.search(r"::is_empty$", tj["f"] or "") and cfg.dominates(body, j, i) and j != i:
+                                under_empty = True
+                        if under_empty:
+                            guarded_empty_send = True
+                        else:
+                            certain = True
+            # the empty case answered in expression form: `results.is_empty().then(|| frame)` /
+            # `.then_some(frame)` chained in front of the per-result frames
+            for body in tree:
+                for i, t in body.calls():
+                    if re.search(r"bool>::then(_some)?::<protocol::resp::RespFrame", t["f"] or "") and t["a"] and not op_is_const(t["a"][0]):
+                        if prov.operand_origins(body, t["a"][0], deep=True).has_call(r"::is_empty$"):
+                            guarded_empty_send = True
+            # an arity refusal up front: comparison of a slice length with a constant >= 2 whose
+            # one edge returns an error reply
+            arity = False
+            for x, bb in enumerate(b.bbs):
+                for st in bb["s"]:
+                    if st["k"] == "=" and st["r"]["k"] == "bin" and st["r"].get("op") in ("Lt", "Le", "Ge", "Gt", "Eq", "Ne"):
+                        ops = (st["r"]["a"], st["r"]["b"])
+                        cs = [o for o in ops if op_is_const(o)]
+                        vs = [o for o in ops if not op_is_const(o)]
+                        if cs and vs and str(cs[0].get("v")) in ("1", "2") and prov.operand_origins(b, vs[0]).has_call(r"::len$") and all(cfg.dominates(b, x, r_) for r_ in nores):
+                            # a refusal: one edge of the test cannot reach the NoResponse any more
+                            tt = bb["t"]
+                            if tt["k"] == "switch":
+                                for tgt in set([v for _, v in tt["ts"]] + [tt["o"]]):
+                                    if not (cfg.fwd(b, [tgt]) & set(nores)):
+                                        arity = True
+            ok = certain or (looped and (arity or guarded_empty_send))
+            R.inst(fn, "acknowledgement", {"handler": fn, "command": nm, "send_outside_loops": certain, "sends_in_a_result_loop": looped, "names_required_by_an_arity_test": arity, "empty_results_answered": guarded_empty_send})
+            if not ok:
+                R.finding(fn, "acknowledgement:may-send-nothing",
+                          "%s returns NoResponse although its only sends sit in a loop over the manager's results, names are optional, and an empty result has no reply of its own: %s from a client without subscriptions gets no reply at all (Redis answers `%s nil 0`), so the client waits for ever and later replies pair with the wrong commands" % (fn.split("::")[-1], nm, nm.lower()), b.loc(nores[0]))
+    R.floor("self_replying_handlers", n)
